@@ -206,15 +206,25 @@ def run_property(prop, tier='quick', update_baseline=False, only=None, verbose=F
                 return k
         return None
 
+    confirmed = {}
     for ob in refuted:
         k = is_known(ob)
         info = {'property': prop, 'obligation': ob.name, 'kind': ob.kind, 'line': ob.line, 'note': ob.note,
                 'verdict': 'refuted', 'backend': ob.backend, 'goal': str(ob.goal)[:2000]}
         rr = None
+        # opt-in (spec.confirm_limit = n): once n refuted obligations of a function have replayed a failing input on
+        # the real code, the (expensive) counter-model search is not repeated for its remaining refuted obligations
+        lim = getattr(ob.func.spec, 'confirm_limit', None)
         try:
-            rr = confirm(ob)
+            if lim is not None and confirmed.get(ob.func.spec.name, 0) >= lim:
+                rr = {'status': 'inconclusive', 'diffs': ['confirm_limit reached: failing inputs for this function '
+                                                          'were already replayed for other obligations']}
+            else:
+                rr = confirm(ob)
         except Exception as e:
             rr = {'status': 'inconclusive', 'diffs': ['replay crashed: ' + repr(e)]}
+        if rr.get('status') == 'agree':
+            confirmed[ob.func.spec.name] = confirmed.get(ob.func.spec.name, 0) + 1
         info['replay'] = {k2: v for k2, v in rr.items() if k2 in ('status', 'diffs', 'job', 'native')}
         if k is not None:
             known_lines.append(f'KNOWN-FINDING: property={prop} {k["what"]} [{base_name(ob.name)}]')
